@@ -666,6 +666,19 @@ func runCheck(prop, tier string) int {
 		}
 	}
 
+	if path := os.Getenv("VERIF_DUMP_FPS"); path != "" {
+		// determinism proof on the whole tier: (run index, fingerprint) pairs, to be diffed across processes / worker counts
+		var idx []int
+		for i := range a.fps {
+			idx = append(idx, i)
+		}
+		sort.Ints(idx)
+		var b strings.Builder
+		for _, i := range idx {
+			fmt.Fprintf(&b, "%d %s\n", i, a.fps[i])
+		}
+		os.WriteFile(path, []byte(b.String()), 0o644)
+	}
 	wall := time.Since(t0).Seconds()
 	if err := a.writeEvidence(chk, tier, seed, wall, reported, len(seen), stIdx, stProcs, stMismatch, knownHit); err != nil {
 		fmt.Println("HARNESS-TROUBLE: evidence:", err)
@@ -706,7 +719,7 @@ func (a *agg) add(prop string, m *wireMsg) {
 		a.probes[k] += v
 	}
 	a.exch += int64(o.Exchanges)
-	if o.Fingerprint != "" && len(a.fps) < 4096 {
+	if o.Fingerprint != "" && (len(a.fps) < 4096 || os.Getenv("VERIF_DUMP_FPS") != "") {
 		a.fps[m.I] = o.Fingerprint
 	}
 	own := false
